@@ -169,10 +169,12 @@ Proof. vm_compute. split; reflexivity. Qed.
    exactly when not transmitted since the last error response and then exactly the expected
    pixels with s, v, placements = old + {(id, pid)}, pid <> 0, (id, position) <-> pid functional
    and injective, erase removes exactly that placement, a re-transmitted image is re-placed where
-   draw had put it).  The model satisfies it on every case: any images (well formed, content
-   index <-> image id one-to-one, i.e. no hash collision), any history of draw / erase / handle
-   calls, positions with coordinates below 65536 other than the wrap-around corner. *)
-Theorem C11_model_meets_predicate :
+   draw had put it).  The model satisfies it on every case outside the two known classes: any
+   images (well formed, content index <-> image id one-to-one, i.e. no two contents of the case
+   collide in the 32-bit id: class id-collision, C11_id_collision_refuted), any history of draw /
+   erase / handle calls, positions with coordinates below 65536 other than the last one, which
+   shares its placement id (class pid-corner, C11_pairing_corner_refuted). *)
+Theorem C11_model_meets_predicate_outside_known_classes :
   forall (quiet : bool) (imgs : list c11_img) (contents : list content) (ops : list c11_op),
   (forall img h c, In (img, h, c) imgs -> image_wf img /\ nth_error contents c = Some (content_rec img)) ->
   (forall i1 h1 c1 i2 h2 c2, In (i1, h1, c1) imgs -> In (i2, h2, c2) imgs ->
@@ -180,6 +182,24 @@ Theorem C11_model_meets_predicate :
   Forall (op_ok imgs) ops ->
   c11_code (Case quiet imgs contents ops (c11_model (Case quiet imgs contents ops []))) = 0.
 Proof. exact model_meets_predicate. Qed.
+
+(* known finding (class id-collision): the image id is the 64-bit content hash reduced to 32 bits, so
+   two different contents can share an id.  Witness: two 1x1 images; after drawing the first, drawing
+   the second transmits nothing (one placement command only), i.e. the terminal shows the first one's
+   pixels for it, and the property predicate rejects the history (reason 106: two contents, one id). *)
+Definition col_a : image := mkImage [(1, 238, 32, 255)] (of_size 1 1).
+Definition col_b : image := mkImage [(20, 45, 240, 128)] (of_size 1 1).
+Theorem C11_id_collision_refuted :
+  pix_bytes col_a <> pix_bytes col_b /\
+  image_id (surface_hash col_a) = image_id (surface_hash col_b) /\
+  (let st := snd (draw (kitty_new false) col_a (surface_hash col_a) (1, 1)) in
+   parse_stream (fst (draw st col_b (surface_hash col_b) (2, 2))) =
+   Some [put_item (image_id (surface_hash col_a)) (placement_id (2, 2)) 0]) /\
+  (let imgs : list c11_img := [(col_a, surface_hash col_a, 0%nat); (col_b, surface_hash col_b, 1%nat)] in
+   let contents := [content_rec col_a; content_rec col_b] in
+   let ops := [CDraw 0 (1, 1); CDraw 1 (2, 2)] in
+   c11_code (Case false imgs contents ops (c11_model (Case false imgs contents ops []))) = 1106).
+Proof. vm_compute. repeat split; try reflexivity. discriminate. Qed.
 
 (* ------------------------------------------------------------------------------------------ *)
 Check C11_payload : forall (img : image) (hash : N) (pos : N * N) (st : kitty),
@@ -210,7 +230,7 @@ Check C11_pairing : forall (st : kitty) (s : tstore) (img : image) (hash : N) (p
      In (image_id hash, placement_id pos') (places_of s) ->
      In (image_id hash, placement_id pos') (places_of s')).
 
-Check C11_model_meets_predicate :
+Check C11_model_meets_predicate_outside_known_classes :
   forall (quiet : bool) (imgs : list c11_img) (contents : list content) (ops : list c11_op),
   (forall img h c, In (img, h, c) imgs -> image_wf img /\ nth_error contents c = Some (content_rec img)) ->
   (forall i1 h1 c1 i2 h2 c2, In (i1, h1, c1) imgs -> In (i2, h2, c2) imgs ->
@@ -261,7 +281,7 @@ Example C11_once_nonvacuous :
      [(900477109, 65538); (78, 458758); (900477109, 458758)]].
 Proof. vm_compute. split; reflexivity. Qed.
 
-(* a case meeting the hypotheses of C11_model_meets_predicate: two images (one a strided view),
+(* a case meeting the hypotheses of C11_model_meets_predicate_outside_known_classes: two images (one a strided view),
    draws, erases, an error response with and without placement, an OK response, another event *)
 Example C11_model_meets_predicate_nonvacuous :
   let imgs : list c11_img := [(ex_img, ex_hash, 0%nat); (ex_view, 77, 1%nat)] in
